@@ -501,4 +501,142 @@ class Binned(Harness):
         return None if cout == exp else f"BinnedGenome({g}, bin_size={b}).count({locs}) = {cout}, expected {exp}"
 
 
-HARNESSES = [Coords(), GenomeOps(), Binned()]
+class ValuesUnderIntervals(Harness):
+    """array values and sequence under intervals / at locations of a multi-chromosome genome: each interval gets exactly the values of
+    its own chromosome at its own positions (reversed on the minus strand; reverse-complemented for sequence)"""
+    name = "values_under_intervals"
+    functions = ("GenomicArrayGlobal.extract_intervals/extract_locations", "GlobalOffset.from_local_interval/from_local_coordinates",
+                 "GenomicRunLengthArray.__getitem__ (interval list)", "RunLengthRaggedArray", "GenomicSequence.extract_intervals")
+    bounds = {"quick": "genomes {chr1:3, chr2:2} and {chr1:2, chr10:1, chr2:3}; a track of 1-2 bedGraph records (symbolic boundaries and values); "
+                       "1-2 intervals on chosen chromosomes with symbolic 0<=start<stop<=size and symbolic strand, incl. intervals that end at a "
+                       "chromosome end / start at 0 of the next; sequence: symbolic bases on 2 chromosomes",
+              "thorough": "2-3 intervals on all chromosome combinations"}
+
+    def skeletons(self, tier, seed):
+        from checks.C09 import GENOMES
+        out = []
+        combos = {"g2": [[0], [1], [0, 1], [1, 0], [1, 1]], "g3": [[1], [0, 2], [2, 1]]}
+        if tier == "thorough":
+            combos = {"g2": [list(c) for k in (1, 2, 3) for c in itertools.product(range(2), repeat=k)],
+                      "g3": [list(c) for k in (1, 2) for c in itertools.product(range(3), repeat=k)]}
+        for g, ivsets in combos.items():
+            for ivs in ivsets:
+                for runs in ([[0, 1]] if g == "g2" else [[0, 2]]) + ([[1]] if tier == "thorough" or len(ivs) == 1 else []):
+                    for what in ("array", "array_stranded", "locations"):
+                        out.append(dict(genome=g, runs=runs, ivs=ivs, what=what))
+        for ivs in combos["g2"]:
+            out.append(dict(genome="g2", ivs=ivs, what="sequence"))
+        return out
+
+    def inputs(self, skel, V):
+        from checks.C09 import GENOMES, declare_track
+        sizes = list(GENOMES[skel["genome"]].values())
+        if skel["what"] != "sequence":
+            declare_track(V, skel["runs"], sizes, "a")
+        else:
+            for ci, n in enumerate(sizes):
+                for p in range(n):
+                    V.int(f"b{ci}_{p}", 0, 3)
+        for i, c in enumerate(skel["ivs"]):
+            s = V.int(f"s{i}", 0, sizes[c] - 1); e = V.int(f"e{i}", 1, sizes[c])
+            V.assume(s.t < e.t)
+            V.int(f"neg{i}", 0, 1)
+
+    def call(self, skel, x, ctx):
+        import bionumpy as bnp
+        from checks.C09 import GENOMES, make_track
+        from bionumpy.datatypes import StrandedInterval
+        from bionumpy.encoded_array import EncodedArray
+        from bionumpy.encodings import StrandEncoding
+        genome = GENOMES[skel["genome"]]
+        names = list(genome)
+        m = len(skel["ivs"])
+        chroms = [names[c] for c in skel["ivs"]]
+        starts = ctx.arr([x[f"s{i}"] for i in range(m)], "int64")
+        stops = ctx.arr([x[f"e{i}"] for i in range(m)], "int64")
+        strand = EncodedArray(ctx.arr([x[f"neg{i}"] for i in range(m)], "uint8"), StrandEncoding)
+        iv = StrandedInterval(chroms, starts, stops, strand)
+        if skel["what"] == "sequence":
+            from bionumpy.genomic_data.genomic_sequence import GenomicSequence
+            seqs = {nm: EncodedArray(ctx.arr([x[f"b{ci}_{p}"] for p in range(genome[nm])], "uint8"), bnp.DNAEncoding) for ci, nm in enumerate(names)}
+            out = GenomicSequence.from_dict(seqs).extract_intervals(iv, stranded=True)
+            return dict(rows=[ctx.lst(out[i].raw()) for i in range(m)])
+        A = make_track(ctx, x, skel["runs"], genome, "a")
+        if skel["what"] == "locations":
+            from bionumpy.genomic_data.genomic_intervals import GenomicLocation
+            g = bnp.Genome.from_dict(dict(genome))
+            loc = g.get_locations(bnp.datatypes.LocationEntry(chroms, starts))
+            vals = A.extract_locations(loc)
+            return dict(values=ctx.lst(vals.to_array() if hasattr(vals, "to_array") else vals))
+        rle = A.extract_intervals(iv, stranded=skel["what"] == "array_stranded")
+        return dict(rows=[ctx.lst(rle[i].to_array()) for i in range(m)])
+
+    def _dense(self, skel, x, val):
+        from checks.C09 import GENOMES, dense_terms, dense_py
+        genome = GENOMES[skel["genome"]]
+        return genome, list(genome)
+
+    def post(self, skel, x, out):
+        if isinstance(out, Exc):
+            return False
+        from checks.C09 import GENOMES, dense_terms
+        genome = GENOMES[skel["genome"]]
+        names = list(genome)
+        m = len(skel["ivs"])
+        conj = []
+        if skel["what"] == "sequence":
+            dense = {nm: [x[f"b{ci}_{p}"].t for p in range(genome[nm])] for ci, nm in enumerate(names)}
+        else:
+            dense = dense_terms(x, skel["runs"], genome, "a")
+        if skel["what"] == "locations":
+            if len(out["values"]) != m:
+                return False
+            for i, c in enumerate(skel["ivs"]):
+                col = dense[names[c]]
+                exp = z3.IntVal(0)
+                for p in range(len(col)):
+                    exp = z3.If(x[f"s{i}"].t == p, col[p], exp)
+                conj.append(TI(out["values"][i]) == exp)
+            return z_and(conj)
+        if len(out["rows"]) != m:
+            return False
+        stranded = skel["what"] in ("array_stranded", "sequence")
+        for i, c in enumerate(skel["ivs"]):
+            col = dense[names[c]]
+            s, e, neg = x[f"s{i}"].t, x[f"e{i}"].t, x[f"neg{i}"].t == 1
+            row = out["rows"][i]
+            conj.append(e - s == len(row))
+            for j in range(len(row)):
+                fwd = z3.IntVal(-1); rev = z3.IntVal(-1)
+                for p in range(len(col)):
+                    fwd = z3.If(s + j == p, col[p], fwd)
+                    rev = z3.If(e - 1 - j == p, (3 - col[p]) if skel["what"] == "sequence" else col[p], rev)
+                conj.append(TI(row[j]) == (z3.If(neg, rev, fwd) if stranded else fwd))
+        return z_and(conj)
+
+    def oracle(self, skel, cx, cout):
+        if isinstance(cout, Exc):
+            return f"{skel}: raised {cout}"
+        from checks.C09 import GENOMES, dense_py
+        genome = GENOMES[skel["genome"]]
+        names = list(genome)
+        m = len(skel["ivs"])
+        if skel["what"] == "sequence":
+            dense = {nm: [cx[f"b{ci}_{p}"] for p in range(genome[nm])] for ci, nm in enumerate(names)}
+        else:
+            dense = dense_py(cx, skel["runs"], genome, "a")
+        ivs = [(names[c], cx[f"s{i}"], cx[f"e{i}"], "+-"[cx[f"neg{i}"]]) for i, c in enumerate(skel["ivs"])]
+        if skel["what"] == "locations":
+            exp = [dense[n][s] for n, s, e, st in ivs]
+            return None if [int(v) for v in cout["values"]] == exp else f"values at locations {[(n, s) for n, s, e, st in ivs]} of {dense}: {cout['values']}, expected {exp}"
+        exp = []
+        for n, s, e, st in ivs:
+            sub = dense[n][s:e]
+            if st == "-" and skel["what"] in ("array_stranded", "sequence"):
+                sub = [(3 - v) if skel["what"] == "sequence" else v for v in reversed(sub)]
+            exp.append(sub)
+        got = [[int(v) for v in r] for r in cout["rows"]]
+        return None if got == exp else f"{skel['what']} under intervals {ivs} of per-chromosome data {dense}: {got}, expected {exp}"
+
+
+HARNESSES = [Coords(), GenomeOps(), Binned(), ValuesUnderIntervals()]
